@@ -4,7 +4,7 @@
 
    case line tokens (others are ignored):
      re=<ast>  fl=<flags: subset of a w i s f>  buf=<hex>          -> <id> S a=<o>:<l>,<l>..;.. w=.. [af=.. wf=..]
-     re=<ast>  fl=<i s>  mstr=<hex>                                -> <id> M <0|1> <only-empty-at-end 0|1>
+     re=<ast>  fl=<i s>  mstr=<hex>                                -> <id> M <0|1>
    AST text (no blanks): l<hh> m<vv><mm> n<hh> k<vv><mm> . c<0|1><64 hex> w W s S d D e ^ $ b B
      C(x,y) A(x,y) *<g|l>(x) +<g|l>(x) R<g|l><lo>,<hi>(x) J<g|l><lo>,<hi>                                   -/
 import YaraModel.Spec.Re
@@ -148,9 +148,7 @@ def handle (line : String) : String :=
           | some bs =>
             let buf : Bytes := bs.toArray
             let starts := (List.range (buf.size + 1)).filter (fun o => !(r.endsSet base buf [o]).isEmpty)
-            let m := !starts.isEmpty
-            let onlyEnd := m && buf.size > 0 && starts.all (fun o => o == buf.size)
-            id ++ " M " ++ (if m then "1" else "0") ++ " " ++ (if onlyEnd then "1" else "0")
+            id ++ " M " ++ (if starts.isEmpty then "0" else "1")
         | none =>
           match (field ts "buf").bind Driver.unhex with
           | none => id ++ " BAD hex"
@@ -171,8 +169,6 @@ def handle (line : String) : String :=
                 " af=" ++ showSets buf (fun o => (lensAt base buf r o).filter (fun L => fullwordOk false buf o L)) else ""
             let wf := if fw && has 'w' then
                 " wf=" ++ showSets buf (fun o => (lensAt wideFl buf r o).filter (fun L => fullwordOk true buf o L)) else ""
-            let wn := if fw && has 'w' then
-                " wn=" ++ showSets buf (fun o => (lensAt wideFl buf r o).filter (fun L => fullwordOk false buf o L)) else ""
-            id ++ " S" ++ a ++ w ++ af ++ wf ++ wn
+            id ++ " S" ++ a ++ w ++ af ++ wf
 
 end Driver.Re
